@@ -2,18 +2,23 @@
 (* C03 -- definition layer cross-checks and the two loops of suffix_array.rs *)
 (* that have state worth a machine, for every text over Sym with up to       *)
 (* MaxSent sentinel occurrences and 1 <= n <= MaxN:                          *)
-(*   order   lemmas about the oracle itself: the order of Transform is a     *)
-(*           strict total order in which every sentinel suffix precedes every*)
-(*           other suffix and the final sentinel is the minimum; the rank-   *)
-(*           counting array SortedSA satisfies IsSortedSA and is the only    *)
-(*           permutation that does (n <= MaxPermN)                           *)
+(*   order   lemmas about the oracle itself, for EVERY admissible order of   *)
+(*           the sentinel occurrences (final sentinel smallest): the induced *)
+(*           comparison is a strict total order in which every sentinel      *)
+(*           suffix precedes every other suffix and the final sentinel is the*)
+(*           minimum; its sorted permutation satisfies IsValidSA, its        *)
+(*           read-off order is that order, and the permutations accepted by  *)
+(*           IsValidSA are exactly these (n <= MaxPermN): existence of an    *)
+(*           order <=> IsValidSA, uniqueness per order.  The code's order    *)
+(*           (Transform / IsSortedSA) is one of them.                        *)
 (*   kasai   lcp(): one KasaiStep per text position, the carried l-1, the    *)
 (*           SmallInts escape value Esc (127 in the code) with overflow map; *)
 (*           then shortest_unique_substrings' formula against the brute force*)
 (*   sget    SampledSuffixArray::get: LF walk to the next sampled row or to  *)
 (*           a cached extra row (BWT symbol = sentinel), for every sampling  *)
 (*           rate s in 1..n+1, Occ rate k in OccRates (Occ machine of C04    *)
-(*           plugged in), every index                                        *)
+(*           plugged in), every index -- on the suffix array of every        *)
+(*           admissible sentinel order, not only the code's                  *)
 EXTENDS SuffixIndex
 CONSTANTS Sym, Sent, MaxN, MaxSent, MaxPermN, Esc, OccRates, T
 
@@ -27,8 +32,8 @@ Perms(n) == {f \in [1..n -> 0..(n - 1)] : \A i, j \in 1..n : f[i] = f[j] => i = 
 
 Init ==
     /\ t \in Texts
-    /\ sa = SortedSA(t)
-    /\ \/ /\ mode = "order" /\ st = 0 /\ sm = 0 /\ aux = 0
+    /\ sa \in AdmissibleSAs(t)
+    /\ \/ /\ mode = "order" /\ sa = SortedSA(t) /\ st = 0 /\ sm = 0 /\ aux = 0
        \/ /\ mode = "kasai" /\ SingleSentinel(t) /\ Len(t) >= 2
           /\ st = KasaiInit(Len(t))
           /\ sm = <<[r \in 1..(Len(t) + 1) |-> -1], << >> >>
@@ -68,22 +73,33 @@ Next == KasaiAdvance \/ KasaiDone \/ SGetStart \/ SGetWalk
 Spec == Init /\ [][Next]_vars
 
 \* ------------------------------------------------------------ invariants
-X == Transform(t)
 OrderLemma ==
     mode = "order" =>
-        /\ \A i, j \in 0..(N - 1) : i # j => (SufLess(X, i, j) <=> ~SufLess(X, j, i))        \* total, antisymmetric
-        /\ \A i, j, m \in 0..(N - 1) : SufLess(X, i, j) /\ SufLess(X, j, m) => SufLess(X, i, m)
-        /\ \A i, j \in 0..(N - 1) : t[i + 1] = Sent /\ t[j + 1] # Sent => SufLess(X, i, j)     \* sentinels first
-        /\ \A i \in 0..(N - 2) : SufLess(X, N - 1, i)                                            \* last sentinel smallest
-        /\ \A i, j \in 0..(N - 1) : t[i + 1] = Sent /\ t[j + 1] = Sent /\ i > j => SufLess(X, i, j)  \* fixed order of sentinels
-        \* between non-sentinel-initial suffixes the order is the plain lexicographic one up to the first sentinel
-        /\ \A i, j \in 0..(N - 1) :
-              LET l == LcpLen(t, i, j) IN
-              (i # j /\ i + l < N /\ j + l < N /\ t[i + l + 1] # t[j + l + 1] /\ \A x \in 1..l : t[i + x] # Sent)
-                 => (SufLess(X, i, j) <=> t[i + l + 1] < t[j + l + 1])
-        /\ IsSortedSA(sa, t)
-        /\ N <= MaxPermN => \A f \in Perms(N) : IsSortedSA(f, t) => f = sa
-        /\ \A f \in {[sa EXCEPT ![a] = sa[b], ![b] = sa[a]] : a, b \in 1..N} : IsSortedSA(f, t) => f = sa
+        /\ \A ord \in SentOrders(t) :
+              LET X == Eager(TransformWith(t, ord))
+                  f == SortedSAWith(t, ord)
+              IN
+              /\ \A i, j \in 0..(N - 1) : i # j => (SufLess(X, i, j) <=> ~SufLess(X, j, i))        \* total, antisymmetric
+              /\ \A i, j, m \in 0..(N - 1) : SufLess(X, i, j) /\ SufLess(X, j, m) => SufLess(X, i, m)
+              /\ \A i, j \in 0..(N - 1) : t[i + 1] = Sent /\ t[j + 1] # Sent => SufLess(X, i, j)     \* sentinels first
+              /\ \A i \in 0..(N - 2) : SufLess(X, N - 1, i)                                            \* last sentinel smallest
+              /\ \A i, j \in SentPositions(t) : ord[i] < ord[j] => SufLess(X, i, j)                    \* the fixed order of sentinels
+              \* below the first sentinel the order is the plain lexicographic one
+              /\ \A i, j \in 0..(N - 1) :
+                    LET l == LcpLen(t, i, j) IN
+                    (i # j /\ i + l < N /\ j + l < N /\ t[i + l + 1] # t[j + l + 1] /\ \A x \in 1..l : t[i + x] # Sent)
+                       => (SufLess(X, i, j) <=> t[i + l + 1] < t[j + l + 1])
+              \* the sorted permutation of this order is accepted, and its order can be read off it
+              /\ IsValidSA(f, t) /\ ReadOffOrder(f, t) = ord
+              \* ... and nothing next to it (one transposition away) is sorted under the same order
+              /\ \A g \in {[f EXCEPT ![a] = f[b], ![b] = f[a]] : a, b \in 1..N} :
+                    (IsValidSA(g, t) /\ ReadOffOrder(g, t) = ord) => g = f
+        \* IsValidSA accepts exactly the sorted permutations of the admissible orders
+        /\ N <= MaxPermN => \A g \in Perms(N) : IsValidSA(g, t) <=> g \in AdmissibleSAs(t)
+        /\ Cardinality(AdmissibleSAs(t)) = Cardinality(SentOrders(t))          \* one per order
+        \* the code's order is admissible; IsSortedSA singles out its array
+        /\ CodeSentOrder(t) \in SentOrders(t) /\ sa = SortedSAWith(t, CodeSentOrder(t)) /\ IsSortedSA(sa, t)
+        /\ \A g \in AdmissibleSAs(t) : IsSortedSA(g, t) <=> g = sa
 
 \* the carried l never overshoots: the loop may skip the first l comparisons
 KasaiCarry ==
